@@ -27,7 +27,7 @@ pub const FAILPOINTS: &[&str] = &[
 ];
 
 pub const OPS: &[&str] = &[
-    "insert", "insert_bare", "insert_stats", "insert_checked", "remove", "flip_k2", "flip_k3", "flip_k2inv",
+    "insert", "insert_bare", "insert_stats", "insert_checked", "remove", "remove_bare", "flip_k2", "flip_k3", "flip_k2inv",
     "flip_k1_insert", "flip_k1_remove", "repair", "repair_adv",
     "flip_k1_insert_stale", "flip_k2_stale", "insert_duplicate", "remove_unknown",
     // repair Never + periodic Delaunay check EveryN(n), after k preparatory insertions so that the
@@ -62,6 +62,7 @@ fn dup_probe_ok<const D: usize>(dt: &Dt<D>, rng: &mut Rng) -> bool {
 /// policy setup that belongs to the operation's configuration (done BEFORE the fingerprint is taken)
 fn prep_op<const D: usize>(dt: &mut Dt<D>, op: &str) {
     let n1 = NonZeroUsize::new(1).unwrap();
+    if op == "remove_bare" { dt.set_delaunay_repair_policy(DelaunayRepairPolicy::Never); dt.set_delaunay_check_policy(DelaunayCheckPolicy::EndOnly); }
     if op == "insert_bare" { dt.set_delaunay_repair_policy(DelaunayRepairPolicy::Never); dt.set_delaunay_check_policy(DelaunayCheckPolicy::EndOnly); }
     if op == "insert_checked" { dt.set_delaunay_check_policy(DelaunayCheckPolicy::EveryN(n1)); }
     if let Some(rest) = op.strip_prefix("insert_chk") {
@@ -112,7 +113,7 @@ fn run_op<const D: usize>(dt: &mut Dt<D>, op: &str, rng: &mut Rng) -> String {
                 Err(e) => Err(format!("err:{}", tri::err_kind(&format!("{e:?}")))),
             })
         }
-        "remove" => {
+        "remove" | "remove_bare" => {
             let vs: Vec<_> = dt.vertices().map(|(_, v)| *v).collect();
             let v = *rng.pick(&vs);
             catch(|| dt.remove_vertex(&v).map(|_| ()).map_err(|e| format!("err:{}", tri::err_kind(&format!("{e:?}")))))
@@ -271,6 +272,31 @@ fn run_d<const D: usize>(cfg: &Cfg, rng: &mut Rng, out: &mut Out) {
                     out.obs("trace", &tr.join(" "));
                     out.end();
                 }
+            }
+        }
+    }
+    // natural failures of removal: EVERY vertex of each state in turn (hull vertices make the fan
+    // retriangulation succeed and the Level-3 check afterwards fail), with and without a repair pass
+    for (si, w) in pool.iter().enumerate() {
+        let vs: Vec<_> = w.dt.vertices().map(|(_, v)| *v).collect();
+        for (vi, v) in vs.iter().enumerate().take(if thorough { 40 } else { 14 }) {
+            for op in ["remove", "remove_bare"] {
+                let mut dt = w.dt.clone();
+                prep_op(&mut dt, op);
+                let before = full_fingerprint(&dt);
+                verif::disarm();
+                verif::trace(true);
+                let outcome = match catch(|| dt.remove_vertex(v).map(|_| ()).map_err(|e| format!("err:{}", tri::err_kind(&format!("{e:?}"))))) {
+                    Ok(Ok(())) => "ok".to_string(), Ok(Err(e)) => e, Err(m) => format!("panic:{m}") };
+                let tr = verif::take_trace();
+                verif::trace(false);
+                let after = full_fingerprint(&dt);
+                out.case(&format!("x{D}_{si}_{op}_each{vi}"), "txn", &format!("D={D} op={op} fp=none ord=0 fired=0"));
+                out.obs("outcome", &outcome);
+                out.obs("unchanged", if before == after { "1" } else { "0" });
+                out.obs("dup_probe", if dup_probe_ok(&dt, rng) { "1" } else { "0" });
+                out.obs("trace", &tr.join(" "));
+                out.end();
             }
         }
     }
